@@ -35,9 +35,13 @@ VARIABLES l,        \* next line of Trace
           mown,     \* monitor: the child went away on its own (released / crashes at start)
           mdone,    \* monitor: a STOP of a basic task was answered or a Kill was delivered
           mgone,    \* monitor: the event loop has processed a terminal status of the task
+          mdev,     \* monitor: the device's state as last reported by the device itself ("?": not yet)
+          minfl,    \* monitor: delivered transition requests of a controllable task not answered yet
+          mlastT,   \* monitor: last delivered transition request
+          mkseen,   \* monitor: a Kill was delivered (its teardown talks to the device on its own)
           nviol
 
-tvars == <<l, mode, scn, cands, mk, msent, mlast, mlastSK, mkillAt, mown, mdone, mgone, nviol>>
+tvars == <<l, mode, scn, cands, mk, msent, mlast, mlastSK, mkillAt, mown, mdone, mgone, mdev, minfl, mlastT, mkseen, nviol>>
 allvars == <<vars, tvars>>
 
 Line == Trace[l]
@@ -95,7 +99,11 @@ Obs(s) ==
     [] e = "End" -> IF s.exec = "ok" /\ ((Line.alive > 0) <=> (s.child = "running" \/ s.grand)) THEN {s} ELSE {}
     [] OTHER -> {}
 
-Skipped == Line.ev \in {"Note", "Occ", "ChildExit", "Fin", "HarnessError"}
+Skipped == Line.ev \in {"Note", "ChildExit", "Fin", "HarnessError"}
+(* the O2 state a device state stands for (FairMQ names; DIRECT devices use the O2 names; "" for an intermediate state) *)
+O2Of(d) == CASE d = "IDLE" -> "STANDBY" [] d = "READY" -> "CONFIGURED" [] d = "EXITING" -> "DONE"
+             [] d \in {"STANDBY", "CONFIGURED", "RUNNING", "ERROR", "DONE"} -> d [] OTHER -> ""
+IsTrans(r) == r \in {"CONFIGURE", "START"}
 NextCands == UNION {Obs(s) : s \in Closure(cands)}
 
 (* ----- the monitor: property formulas on recorded facts ----- *)
@@ -116,6 +124,12 @@ MonitorStep ==
                  [] OTHER -> mdone
   IN /\ msent' = sent2 /\ mlast' = last2 /\ mlastSK' = lastSK2 /\ mown' = own2 /\ mkillAt' = killAt2 /\ mdone' = done2
      /\ mgone' = (mgone \/ (Line.ev = "Proc" /\ Terminal(Short(Line.state))))
+     /\ mkseen' = (mkseen \/ (IsDeliveredReq /\ Line.r = "Kill"))
+     /\ mlastT' = IF IsDeliveredReq /\ IsTrans(Line.r) THEN ReqRec ELSE mlastT
+     /\ minfl' = IF mk.kind # "ctl" THEN 0
+                  ELSE IF IsDeliveredReq /\ IsTrans(Line.r) THEN minfl + 1
+                  ELSE IF Line.ev = "Resp" /\ minfl > 0 THEN minfl - 1 ELSE minfl
+     /\ mdev' = mdev
      /\ nviol' = nviol
           + Soft("OneTerminal", OneTerminalOf(sent2), Blame(last2, ""))
           + Soft("KilledNotFailed", KilledNotFailedOf(sent2, killAt2, own2), Blame(last2, ""))
@@ -123,8 +137,12 @@ MonitorStep ==
                  Blame(lastSK2, IF HasF("site") THEN Line.site ELSE "event loop"))
           + Soft("NoSurvivors", (Line.ev = "End" /\ done2) => Line.alive = 0, Blame(lastSK2, ""))
           + Soft("GoneIsGone", IsDeliveredReq => ~mgone, Blame(ReqRec, ""))
+          \* (clause of C16) the state carried by the answer to a transition is the device's state at that moment
+          + Soft("TransitionTruthful",
+                 (Line.ev = "Resp" /\ mk.kind = "ctl" /\ IsTrans(Line.r) /\ mdev # "?" /\ Line.state # "") => Line.state \in {mdev, O2Of(mdev)},
+                 Blame(mlastT, "answer " \o Line.state \o " / device " \o mdev))
 
-IsStep == Line.ev # "Reset" /\ ~Skipped
+IsStep == Line.ev \notin {"Reset", "Occ"} /\ ~Skipped
 
 TStep ==
   /\ l <= Len(Trace) /\ IsStep /\ mode = "ok"
@@ -142,21 +160,33 @@ TStepLost ==
 
 TSkip ==
   /\ l <= Len(Trace) /\ Line.ev # "Reset" /\ Skipped
-  /\ l' = l + 1 /\ UNCHANGED <<vars, mode, scn, cands, mk, msent, mlast, mlastSK, mkillAt, mown, mdone, mgone, nviol>>
+  /\ l' = l + 1 /\ UNCHANGED <<vars, mode, scn, cands, mk, msent, mlast, mlastSK, mkillAt, mown, mdone, mgone, mdev, minfl, mlastT,
+                               mkseen, nviol>>
+
+(* what the device process wrote itself: not a step of the model, but facts for the monitor - the device's state, and
+   (clause of C16) no device request of a transition is issued once that transition has been answered *)
+TOcc ==
+  /\ l <= Len(Trace) /\ Line.ev = "Occ"
+  /\ mdev' = IF HasF("st") THEN Line.st ELSE mdev
+  /\ nviol' = nviol + Soft("TransitionTruthful", ~(Line.rpc = "Transition" /\ minfl = 0 /\ ~mkseen /\ mlastT.r # "none"),
+                            Blame(mlastT, "device request after the answer"))
+  /\ l' = l + 1 /\ UNCHANGED <<vars, mode, scn, cands, mk, msent, mlast, mlastSK, mkillAt, mown, mdone, mgone, minfl, mlastT, mkseen>>
 
 TReset ==
   /\ l <= Len(Trace) /\ Line.ev = "Reset"
   /\ cands' = {InitState(Line.kind, Line.beh, Line.hold)}
   /\ mode' = "ok" /\ scn' = Line.scn /\ mk' = [kind |-> Line.kind, beh |-> Line.beh]
   /\ msent' = <<>> /\ mlast' = NoReq /\ mlastSK' = NoReq /\ mkillAt' = 0 /\ mown' = FALSE /\ mdone' = FALSE /\ mgone' = FALSE
+  /\ mdev' = "?" /\ minfl' = 0 /\ mlastT' = NoReq /\ mkseen' = FALSE
   /\ l' = l + 1 /\ UNCHANGED <<vars, nviol>>
 
 TraceInit ==
   /\ Is(InitState("basic", "sleep", FALSE))
   /\ l = 1 /\ mode = "lost" /\ scn = -1 /\ cands = {} /\ mk = [kind |-> "basic", beh |-> "sleep"]
   /\ msent = <<>> /\ mlast = NoReq /\ mlastSK = NoReq /\ mkillAt = 0 /\ mown = FALSE /\ mdone = FALSE /\ mgone = FALSE /\ nviol = 0
+  /\ mdev = "?" /\ minfl = 0 /\ mlastT = NoReq /\ mkseen = FALSE
 
-TraceNext == TStep \/ TStepLost \/ TSkip \/ TReset
+TraceNext == TStep \/ TStepLost \/ TSkip \/ TOcc \/ TReset
 
 TraceSpec == TraceInit /\ [][TraceNext]_allvars
 
